@@ -404,7 +404,7 @@ func clipList(l []string) []string {
 
 func TestC16PseudoCursor(t *testing.T) {
 	fw.Run(t, fw.Spec[pseudoCase]{
-		ID: "C16", Name: "pseudo_cursor", Quick: 3200, Thorough: 64000,
+		ID: "C16", Name: "pseudo_cursor", Quick: 2600, Thorough: 40000,
 		Gen: genPseudo, Check: checkPseudo,
 		Rule: "a user-defined aggregate function whose body is a generated walk of 1-9 steps over its pseudo cursor (FETCH in all six positions with offsets -4..6 and around +-2^31/2^62/2^63, IS [NOT] IN RANGE, COUNT, IS OPEN, WHILE IN with and without BREAK followed by IS IN RANGE) and which returns the trace of what every step saw plus a final listing (FETCH ABSOLUTE -1, WHILE IN to the end); called as aggregate over the whole table, per GROUP BY group, over DISTINCT values and as analytic function per partition (8%: 160-360 rows at CPU 2/4, partitions evaluated concurrently), groups of 0..360 values with NULLs. Oracle: the listing is the multiset of the group's values; the trace is what a cursor just opened over that listing delivers (pointer before the first value, UNKNOWN until the first fetch, clamping at both ends, every loop iteration the next value exactly once); 6%: the body ends with OPEN cur, which must make the query fail. Non-trivial = at least two steps over a non-empty table; distinct by mode, sizes and step sequence",
 		Assumptions: []string{
